@@ -10,6 +10,7 @@ def jLocus (j : Json) : Except String LocusV := do
          mapped := ← jList (jPair jInt jInt) (← field j "mapped")
          phaseable := ← jList jInt (← field j "phaseable")
          multiSites := ← jList (jPair jInt jStr) (← field j "multi_sites")
+         indelEqs := ← jList (jPair (jPair jInt jStr) (jPair jInt jStr)) (fieldD j "indel_eqs" (.arr #[]))
          wide := ← jPair jInt jInt (← field j "wide") }
 
 def jRead (j : Json) : Except String (ReadV × Bool × Bool) := do
